@@ -53,16 +53,58 @@ Definition dev_set_wait (nw : Z) (is_waiting reset : bool) (x : dev) : dev :=
 
 Definition data (w : fw) (label sub : Z) (payload : list Z) : fw := emitf w (FData label sub payload).
 
+(** Asset.add_value on a device *)
+Definition dev_add_value (nw : Z) (label v : Z) (x : dev) : dev :=
+  if v =? 0 then x else x <| d_value ::= Z.add v |> <| d_vhist ::= fun h => h ++ [(label, nw, v, d_value x + v)] |>.
+
+(** * device transformers: every change of a device record made by the functions below is one of these *)
+Definition t_waiting_ds (b : bool) (x : dev) : dev := x <| d_waiting_ds := b |>.
+Definition t_map_slot (slot : bool) (f : item -> item) (x : dev) : dev :=
+  if slot then x <| d_part ::= option_map f |> else x <| d_out ::= option_map f |>.
+Definition t_set_cycle (z : Z) (x : dev) : dev := x <| d_cycle := z |>.
+Definition t_add_offset (z : Z) (x : dev) : dev := x <| d_offset ::= Z.add z |>.
+Definition t_reset_offset (x : dev) : dev := x <| d_offset := 0 |>.
+Definition t_generated (it : item) (x : dev) : dev := x <| d_gen_count ::= Z.add 1 |> <| d_out := Some it |>.
+Definition t_finish (it : item) (x : dev) : dev := x <| d_out := Some it |> <| d_part := None |>.
+Definition t_stop_use (nw : Z) (x : dev) : dev :=
+  x <| d_inuse ::= Z.add (nw - match d_last_use x with Some t => t | None => nw end) |> <| d_last_use := None |>.
+Definition t_start_use (nw : Z) (x : dev) : dev := x <| d_last_use := Some nw |>.
+Definition t_clear_out (x : dev) : dev := x <| d_out := None |>.
+Definition t_clear_part (x : dev) : dev := x <| d_part := None |>.
+Definition t_batch_single (rest : option item) (p : part) (x : dev) : dev := x <| d_part := rest |> <| d_out := Some (ISingle p) |>.
+Definition t_batch_full (rest : option item) (b : part) (ps : list part) (x : dev) : dev :=
+  x <| d_part := rest |> <| d_out := Some (IBatch b ps) |> <| d_inprog := None |>.
+Definition t_batch_more (rest : option item) (b : part) (ps : list part) (x : dev) : dev :=
+  x <| d_part := rest |> <| d_inprog := Some (IBatch b ps) |>.
+Definition t_reserved (o : option nat) (x : dev) : dev := x <| d_reserved := o |>.
+Definition t_waiting_res (b : bool) (x : dev) : dev := x <| d_waiting_res := b |>.
+Definition t_accept (nw : Z) (it : item) (x : dev) : dev := dev_set_wait nw false false (x <| d_part := Some it |>).
+Definition t_accept_buffer (nw : Z) (it : item) (x : dev) : dev := (t_accept nw it x) <| d_level ::= Z.add (item_count it) |>.
+Definition t_accept_sink (nw : Z) (it : item) (x : dev) : dev :=
+  let y := t_accept nw it x in
+  dev_add_value nw 1 (item_value it) (y <| d_received ::= Z.add (item_count it) |> <| d_value_received ::= Z.add (item_value it) |>)
+    <| d_collected ::= fun l => if d_collect x then l ++ [it] else l |>.
+Definition t_buf_store (nw : Z) (it : item) (x : dev) : dev := x <| d_buf ::= fun b => b ++ [(nw, it)] |> <| d_part := None |>.
+Definition t_buf_pop (it : item) (x : dev) : dev := x <| d_level ::= fun l => l - item_count it |> <| d_buf ::= @tl _ |>.
+Definition t_supplied (nw v : Z) (x : dev) : dev :=
+  dev_add_value nw 2 (- v) (x <| d_produced ::= Z.add 1 |>) <| d_cost_produced ::= Z.add v |>.
+Definition t_shutdown (nw : Z) (x : dev) : dev :=
+  dev_set_wait nw false false
+    (x <| d_shut := true |>
+       <| d_uptime ::= Z.add (nw - match d_last_restore x with Some t => t | None => nw end) |>
+       <| d_last_restore := None |>
+       <| d_inuse ::= Z.add (match d_last_use x with Some t => nw - t | None => 0 end) |>
+       <| d_last_use := None |>).
+Definition t_restore (nw : Z) (x : dev) : dev := x <| d_shut := false |> <| d_last_restore := Some nw |>.
+Definition t_block (b : bool) (x : dev) : dev := x <| d_block := b |>.
+Definition t_budget (z : Z) (x : dev) : dev := x <| d_budget := Some z |>.
+
 (** _schedule_pass_part_downstream (a no-op for Sink) *)
 Definition sched_pass (nw offset : Z) (w : fw) (d : Z) : fw :=
   match d_kind (getd w d) with
   | KSink => w
-  | _ => emitf (updd w d (fun x => x <| d_waiting_ds := false |>)) (FSched (Z.max 0 (nw + offset)) P_PASS_PART d (APassPart d))
+  | _ => emitf (updd w d (t_waiting_ds false)) (FSched (Z.max 0 (nw + offset)) P_PASS_PART d (APassPart d))
   end.
-
-(** Asset.add_value on a device *)
-Definition dev_add_value (nw : Z) (label v : Z) (x : dev) : dev :=
-  if v =? 0 then x else x <| d_value ::= Z.add v |> <| d_vhist ::= fun h => h ++ [(label, nw, v, d_value x + v)] |>.
 
 (** apply [f] to the part object with identity [pid], wherever it currently is (Python mutates the
     shared object; by conservation it is in exactly one place) *)
@@ -171,11 +213,11 @@ Definition part_set_quality (q : Z) (it : item) : item :=
 Definition run_cbop (nw : Z) (d : Z) (slot : bool) (is_failure : bool) (lost : Z) (w : fw) (o : cbop) : fw :=
   if negb (okf w) then w else
   let upd_item (f : item -> item) :=
-    updd w d (fun x => if slot then x <| d_part ::= option_map f |> else x <| d_out ::= option_map f |>) in
+    updd w d (t_map_slot slot f) in
   let cur := if slot then d_part (getd w d) else d_out (getd w d) in
   match o with
-  | CbSetCycle z => updd w d (fun x => x <| d_cycle := z |>)
-  | CbOffsetNext z => updd w d (fun x => x <| d_offset ::= Z.add z |>)
+  | CbSetCycle z => updd w d (t_set_cycle z)
+  | CbOffsetNext z => updd w d (t_add_offset z)
   | CbPartAddValue v =>
     match cur with
     | Some it => match part_add_value v it with
@@ -220,7 +262,7 @@ Definition finish_cycle (fuel : nat) (nw : Z) (w : fw) (d : Z) : fw :=
     let w1 := match d_out x with
               | Some _ => w
               | None => let '(w', it) := generate w d in
-                        updd (updd w' d (fun y => y <| d_gen_count ::= Z.add 1 |>)) d (fun y => y <| d_out := Some it |>)
+                        updd w' d (t_generated it)
               end in
     sched_pass nw 0 w1 d
   | _ =>
@@ -229,12 +271,11 @@ Definition finish_cycle (fuel : nat) (nw : Z) (w : fw) (d : Z) : fw :=
          | None, _ => failf w E_ASSERT
          | Some _, Some _ => failf w E_ASSERT
          | Some it, None =>
-           let w1 := sched_pass nw 0 (updd w d (fun y => y <| d_out := Some it |> <| d_part := None |>)) d in
+           let w1 := sched_pass nw 0 (updd w d (t_finish it)) d in
            match d_kind x with
            | KProcessor =>
              let y := getd w1 d in
-             let w2 := updd w1 d (fun y => y <| d_inuse ::= Z.add (nw - match d_last_use y with Some t => t | None => nw end) |>
-                                             <| d_last_use := None |>) in
+             let w2 := updd w1 d (t_stop_use nw) in
              let w3 := match d_reserved y with
                        | Some _ => emitf w2 (FSched nw P_RELEASE d (AReleaseIfIdle d))
                        | None => w2
@@ -245,7 +286,7 @@ Definition finish_cycle (fuel : nat) (nw : Z) (w : fw) (d : Z) : fw :=
              | None => w4
              end
            | KSink =>
-             signal fuel nw true (updd w1 d (fun y => y <| d_out := None |>)) d
+             signal fuel nw true (updd w1 d t_clear_out) d
            | _ => w1
            end
          end
@@ -255,7 +296,7 @@ Definition finish_cycle (fuel : nat) (nw : Z) (w : fw) (d : Z) : fw :=
 Definition sched_finish (fuel : nat) (nw : Z) (w : fw) (d : Z) : fw :=
   let x := getd w d in
   let next := Z.max 0 (d_cycle x + d_offset x) in
-  let w1 := updd w d (fun y => y <| d_offset := 0 |>) in
+  let w1 := updd w d t_reset_offset in
   if next <=? 0 then finish_cycle fuel nw w1 d
   else emitf w1 (FSched (nw + next) P_FINISH_PROCESSING d (AFinishCycle d)).
 
@@ -276,19 +317,17 @@ Fixpoint batcher_fill (n : nat) (w : fw) (d : Z) : fw :=
       match p with
       | None => w
       | Some p =>
-        let w1 := updd w d (fun y => y <| d_part := rest |>) in
         (* _add_part_to_output *)
         let w2 := match d_batch_size x with
-                  | None => updd w1 d (fun y => y <| d_out := Some (ISingle p) |>)
+                  | None => updd w d (t_batch_single rest p)
                   | Some size =>
                     let '(w1', b, ps) := match d_inprog x with
-                                         | Some (IBatch b ps) => (w1, b, ps)
-                                         | _ => let id := f_next_id w1 + 1 in (w1 <| f_next_id := id |>, mkPart id 0 0 [] [], [])
+                                         | Some (IBatch b ps) => (w, b, ps)
+                                         | _ => let id := f_next_id w + 1 in (w <| f_next_id := id |>, mkPart id 0 0 [] [], [])
                                          end in
                     let ps' := ps ++ [p] in
-                    if size <=? Z.of_nat (length ps') then
-                      updd w1' d (fun y => y <| d_out := Some (IBatch b ps') |> <| d_inprog := None |>)
-                    else updd w1' d (fun y => y <| d_inprog := Some (IBatch b ps') |>)
+                    if size <=? Z.of_nat (length ps') then updd w1' d (t_batch_full rest b ps')
+                    else updd w1' d (t_batch_more rest b ps')
                   end in
         batcher_fill n' w2 d
       end
@@ -302,7 +341,7 @@ Definition batcher_try_move (nw : Z) (w : fw) (d : Z) : fw :=
   | Some it, None =>
     if negb (operational x) then w
     else match it with
-         | IBatch _ [] => updd w d (fun y => y <| d_part := None |>)
+         | IBatch _ [] => updd w d t_clear_part
          | _ =>
            let w1 := batcher_fill (S (Z.to_nat (item_count it))) w d in
            match d_out (getd w1 d) with Some _ => sched_pass nw 0 w1 d | None => w1 end
@@ -325,11 +364,11 @@ Definition proc_can_accept (nw : Z) (w : fw) (d : Z) : fw * bool :=
          let res := reserve nw rq (mkRs (r_pools rs0) (r_wait rs0) (r_res rs0) (r_slots rs0) (r_cblog rs0) [] 0 (r_env rs0) (r_nreg rs0)) in
          let w1 := rm_call w (fun _ => fst res) in
          match snd res with
-         | Some i => (updd w1 d (fun y => y <| d_reserved := Some i |>), okf w1)
+         | Some i => (updd w1 d (t_reserved (Some i)), okf w1)
          | None =>
            if negb (okf w1) then (w1, false)
            else if d_waiting_res x then (w1, false)
-           else (updd (rm_call w1 (register nw (Z.to_nat d) rq)) d (fun y => y <| d_waiting_res := true |>), false)
+           else (updd (rm_call w1 (register nw (Z.to_nat d) rq)) d (t_waiting_res true), false)
          end
        | _, _ => (w, true)
        end.
@@ -337,18 +376,14 @@ Definition proc_can_accept (nw : Z) (w : fw) (d : Z) : fw * bool :=
 (** _accept_part + _on_received_new_part *)
 Definition accept (fuel : nat) (nw : Z) (w : fw) (d : Z) (it : item) : fw :=
   let it1 := item_add_hist d it in
-  let w1 := updd w d (fun x => dev_set_wait nw false false (x <| d_part := Some it1 |>)) in
-  let k := d_kind (getd w1 d) in
+  let k := d_kind (getd w d) in
   (* Buffer: level first; Sink: counters, value, collected first *)
   let w2 := match k with
             | KBuffer =>
-              let w' := updd w1 d (fun x => x <| d_level ::= Z.add (item_count it1) |>) in
+              let w' := updd w d (t_accept_buffer nw it1) in
               data w' L_LEVEL d [nw; d_level (getd w' d)]
-            | KSink =>
-              updd w1 d (fun x => dev_add_value nw 1 (item_value it1)
-                                   (x <| d_received ::= Z.add (item_count it1) |> <| d_value_received ::= Z.add (item_value it1) |>)
-                                   <| d_collected ::= fun l => if d_collect x then l ++ [it1] else l |>)
-            | _ => w1
+            | KSink => updd w d (t_accept_sink nw it1)
+            | _ => updd w d (t_accept nw it1)
             end in
   let w3 := rec_part w2 L_RECEIVED d nw it1 in
   let w4 := run_cbops nw d true false (-1) (d_on_receive (getd w3 d)) w3 in
@@ -362,7 +397,7 @@ Definition accept (fuel : nat) (nw : Z) (w : fw) (d : Z) (it : item) : fw :=
     | KBuffer =>
       match d_part x with
       | Some itb =>
-        let w5 := updd w4 d (fun y => y <| d_buf ::= fun b => b ++ [(nw, itb)] |> <| d_part := None |>) in
+        let w5 := updd w4 d (t_buf_store nw itb) in
         let w6 := signal fuel nw true w5 d in
         if (length (d_buf (getd w6 d)) =? 1)%nat then sched_pass nw (d_min_delay x) w6 d else w6
       | None => w4
@@ -370,7 +405,7 @@ Definition accept (fuel : nat) (nw : Z) (w : fw) (d : Z) (it : item) : fw :=
     | KBatcher => batcher_try_move nw w4 d
     | KProcessor =>
       if operational x && (match d_part x with Some _ => true | None => false end)
-      then sched_finish fuel nw (updd w4 d (fun y => y <| d_last_use := Some nw |>)) d else w4
+      then sched_finish fuel nw (updd w4 d (t_start_use nw)) d else w4
     | _ =>
       if operational x && (match d_part x with Some _ => true | None => false end)
       then sched_finish fuel nw w4 d else w4
@@ -432,8 +467,8 @@ Definition handler_pass (fuel : nat) (nw : Z) (w : fw) (d : Z) : fw * bool :=
     if negb (operational x) then (w, false)
     else
       let '(w1, ok) := try_downstream fuel nw w d it in
-      if ok then (signal fuel nw true (updd w1 d (fun y => y <| d_out := None |>)) d, true)
-      else (updd w1 d (fun y => y <| d_waiting_ds := true |>), false)
+      if ok then (signal fuel nw true (updd w1 d t_clear_out) d, true)
+      else (updd w1 d (t_waiting_ds true), false)
   end.
 
 Fixpoint buffer_loop (n : nat) (fuel : nat) (nw : Z) (w : fw) (d : Z) : fw :=
@@ -448,7 +483,7 @@ Fixpoint buffer_loop (n : nat) (fuel : nat) (nw : Z) (w : fw) (d : Z) : fw :=
       else
         let '(w1, ok) := try_downstream fuel nw w d it in
         if ok then
-          let w2 := updd w1 d (fun y => y <| d_level ::= fun l => l - item_count it |> <| d_buf ::= @tl _ |>) in
+          let w2 := updd w1 d (t_buf_pop it) in
           buffer_loop n' fuel nw (data w2 L_LEVEL d [nw; d_level (getd w2 d)]) d
         else w1
     end
@@ -465,7 +500,7 @@ Definition pass_part (fuel : nat) (nw : Z) (w : fw) (d : Z) : fw :=
               | (t0, _) :: _ =>
                 let remaining := d_min_delay y - (nw - t0) in
                 if 0 <? remaining then sched_pass nw remaining w1 d
-                else updd w1 d (fun z => z <| d_waiting_ds := true |>)
+                else updd w1 d (t_waiting_ds true)
               end in
     signal fuel nw true w2 d
   | KSource =>
@@ -478,7 +513,7 @@ Definition pass_part (fuel : nat) (nw : Z) (w : fw) (d : Z) : fw :=
         let id := item_id it in
         let '(w1, ok) := handler_pass fuel nw w d in
         if ok then
-          let w2 := updd w1 d (fun y => dev_add_value nw 2 (- v) (y <| d_produced ::= Z.add 1 |>) <| d_cost_produced ::= Z.add v |>) in
+          let w2 := updd w1 d (t_supplied nw v) in
           sched_finish fuel nw (data w2 L_SUPPLIED d [nw; id]) d
         else w1
     | None => w
@@ -492,7 +527,7 @@ Definition pass_part (fuel : nat) (nw : Z) (w : fw) (d : Z) : fw :=
 (** * PartProcessor: resources, shutdown, failure, restore *)
 Definition release_reserved (nw : Z) (w : fw) (d : Z) : fw :=
   match d_reserved (getd w d) with
-  | Some i => updd (rm_call w (release_obj nw i None)) d (fun y => y <| d_reserved := None |>)
+  | Some i => updd (rm_call w (release_obj nw i None)) d (t_reserved None)
   | None => w
   end.
 
@@ -506,19 +541,13 @@ Definition shutdown (nw : Z) (is_failure : bool) (lost : Z) (w : fw) (d : Z) : f
     (* failed while already shut down: cancel the interrupted cycle, report the lost part *)
     if is_failure then run_cbops nw d true is_failure lost (d_on_shutdown x) (emitf w (FCancel d)) else w
   else
-    let w1 := emitf (updd w d (fun y => y <| d_shut := true |>)) (if is_failure then FCancel d else FPause d) in
-    let w2 := updd w1 d (fun y =>
-                dev_set_wait nw false false
-                  (y <| d_uptime ::= Z.add (nw - match d_last_restore y with Some t => t | None => nw end) |>
-                     <| d_last_restore := None |>
-                     <| d_inuse ::= Z.add (match d_last_use y with Some t => nw - t | None => 0 end) |>
-                     <| d_last_use := None |>)) in
+    let w2 := emitf (updd w d (t_shutdown nw)) (if is_failure then FCancel d else FPause d) in
     run_cbops nw d true is_failure lost (d_on_shutdown x) w2.
 
 Definition fail (nw : Z) (w : fw) (d : Z) : fw :=
   let x := getd w d in
   let lost := match d_part x with Some it => item_id it | None => -1 end in
-  let w1 := updd w d (fun y => y <| d_part := None |>) in
+  let w1 := updd w d t_clear_part in
   let w2 := release_reserved nw w1 d in
   let w3 := data w2 L_FAILURE d [nw; lost] in
   shutdown nw true lost w3 d.
@@ -527,14 +556,14 @@ Definition restore (fuel : nat) (nw : Z) (w : fw) (d : Z) : fw :=
   let x := getd w d in
   if negb (d_shut x) then w
   else
-    let w1 := emitf (updd w d (fun y => y <| d_shut := false |> <| d_last_restore := Some nw |>)) (FUnpause d) in
+    let w1 := emitf (updd w d (t_restore nw)) (FUnpause d) in
     let w2 := match d_out x, d_part x with
               | Some _, _ => sched_pass nw 0 w1 d
               | None, None => signal fuel nw true w1 d
               | None, Some _ => w1
               end in
     let w3 := match d_part x with
-              | Some _ => updd w2 d (fun y => y <| d_last_use := Some nw |>)
+              | Some _ => updd w2 d (t_start_use nw)
               | None => w2
               end in
     run_cbops nw d true false (-1) (d_on_restore x) w3.
@@ -550,7 +579,7 @@ Fixpoint res_check (n : nat) (fuel : nat) (nw : Z) (i : nat) (w : fw) : fw :=
       if can_fulfill (r_pools (f_rm w)) r then
         let d := Z.of_nat cb in
         let w1 := w <| f_rm ::= fun s => set_cblog s (mkCb cb r nw id (r_pools s) :: r_cblog s) |> in
-        let w2 := signal fuel nw true (updd w1 d (fun y => y <| d_waiting_res := false |>)) d in
+        let w2 := signal fuel nw true (updd w1 d (t_waiting_res false)) d in
         if negb (okf w2) then w2
         else res_check n' fuel nw i (w2 <| f_rm ::= fun s => RM.set_wait s (firstn i (r_wait s) ++ skipn (S i) (r_wait s)) |>)
       else res_check n' fuel nw (S i) w
@@ -586,7 +615,7 @@ Definition run_uop (fuel : nat) (nw : Z) (w : fw) (o : uop) : fw :=
   | UBlock d b =>
     let x := getd w d in
     if Bool.eqb (d_block x) b then w
-    else let w1 := updd w d (fun y => y <| d_block := b |>) in
+    else let w1 := updd w d (t_block b) in
          if b then w1 else signal fuel nw true w1 d
   | UAdjust d z =>
     let x := getd w d in
@@ -594,7 +623,7 @@ Definition run_uop (fuel : nat) (nw : Z) (w : fw) (o : uop) : fw :=
     | None => w                                     (* infinite budget: was_empty false, max(inf + z, produced) = inf *)
     | Some b =>
       let was_empty := b - d_produced x <? 1 in
-      let w1 := updd w d (fun y => y <| d_budget := Some (Z.max (b + z) (d_produced x)) |>) in
+      let w1 := updd w d (t_budget (Z.max (b + z) (d_produced x))) in
       if was_empty then sched_pass nw 0 w1 d else w1
     end
   | UAddRes n a => rm_call w (add_resources nw n a)
